@@ -231,6 +231,24 @@ def run(rep, tier, seed):
         case = engine.Case(sexp_types.ty_of_sexp(gen.parse_sexps(ts)[0]), gen.val_of_sexp(gen.parse_sexps(vs)[0]))
         rep.case('corpus ' + case.canon)
         check_case(rep, drv, case)
+    # wide records: more members than one decimal digit counts (dynamic field names field-0 .. field-N), members of
+    # differing types so that the container is guessed as a record; bare, nested and under an explicit tag
+    kinds = [('int',), ('str', 4), ('bool',), ('null',), ('oid',), ('str', 12), ('bits',), ('enum',)]
+    vals = {'int': lambda i: ('i', i + 1), 'str': lambda i: ('s', bytes([97 + i % 26])), 'bool': lambda i: ('b', i % 2 == 0),
+            'null': lambda i: ('null',), 'oid': lambda i: ('oid', [1, 3, i + 1]), 'bits': lambda i: ('bits', '10' * (i % 3 + 1)),
+            'enum': lambda i: ('i', i)}
+    for width in (9, 10, 11, 12, 23, 101):
+        for cons in ('seq', 'set'):
+            fields = [('r', None, kinds[i % len(kinds)]) for i in range(width)]
+            t = (cons, fields)
+            v = ('seq', [vals[f[2][0]](i) for i, f in enumerate(fields)])
+            for tt, vv in ((t, v), (('tag', 'e', 'c', 3, t), v), (('seq', [('r', None, ('int',)), ('r', None, t)]), ('seq', [('i', 7), v]))):
+                if cons == 'set' and not gen.wf(tt):
+                    continue
+                case = engine.Case(tt, vv)
+                rep.case('wide %s' % case.canon[:200], nontrivial=True)
+                rep.count('wide-records')
+                check_case(rep, drv, case)
     done = 0
     for case in engine.gen_cases(rng, n * 4, max_depth=3, allow_implicit=False):
         if done >= n:
